@@ -50,6 +50,9 @@ const c25SrvRule = "generated peer configurations (iBGP/eBGP, add-path) and hist
 // replacement is serialised against route changes (excluded by construction).
 const c25SrvInvSig = "C25/deadlock:routingtable/adjRIBOut.(*AdjRIBOut).AddPath|routingtable/locRIB.(*LocRIB).RefreshClient"
 
+// experiment switch (development only): let DisposePeer race with an incoming connection of the same peer
+var c25NoConMu = os.Getenv("C25_NOCONMU") != ""
+
 var (
 	c25SrvWatchLimit = 10 * time.Second
 	c25SrvWatchGap   = 2 * time.Second
@@ -325,8 +328,10 @@ func c25ReadMsg(c *c25Conn) (uint8, error) {
 
 // connect opens a new connection to the server and runs the handshake.
 func (r *c25SrvRig) connect(rm *c25Remote) bool {
-	rm.conMu.Lock()
-	defer rm.conMu.Unlock()
+	if !c25NoConMu {
+		rm.conMu.Lock()
+		defer rm.conMu.Unlock()
+	}
 	srvSide, remSide := c25Pipe("172.16.0.1:179", fmt.Sprintf("%s:%d", rm.addr.String(), 40000+rm.idx))
 	s := &c25Session{remote: remSide, srv: srvSide, eof: make(chan struct{})}
 	rm.mu.Lock()
@@ -663,7 +668,7 @@ func (r *c25SrvRig) exec(op c25SrvOp) string {
 			}
 			did = true
 			r.srv.DisposePeer(r.v, pip)
-			if r.guardInv {
+			if r.guardInv && !c25NoConMu {
 				// the FSMs tear their sessions down asynchronously (route withdrawals): wait for it while
 				// export policy changes are still excluded
 				rm.mu.Lock()
@@ -722,7 +727,7 @@ func c25SrvJudge(t interface {
 		return true
 	}
 	if !rep.Confirmed {
-		fmt.Printf("C25 watchdog expired but no deadlock confirmed (%s)\ncase: %s\n%s\n", rep.Reason, what, c25SrvTrim(rep.Dump))
+		fmt.Printf("C25 watchdog expired but no deadlock confirmed (%s)\ncase: %s\n%s\n", rep.Reason, what, c25SrvTrim(rep.Relevant))
 		kit.ExitInconclusive("C25 server watchdog: %s", rep.Reason)
 	}
 	for _, s := range rep.CandidateSigs("C25") {
@@ -730,7 +735,7 @@ func c25SrvJudge(t interface {
 			return false
 		}
 	}
-	t.Fatalf("C25 DEADLOCK sig=%s\ncase: %s\nblocked in: %v\n--- goroutine dump (second of two identical) ---\n%s", rep.Sig("C25"), what, rep.Frames, c25SrvTrim(rep.Dump))
+	t.Fatalf("C25 DEADLOCK sig=%s\ncase: %s\nblocked in: %v\n--- stacks of the stuck operations and of busy bio-rd goroutines (second of two identical dumps) ---\n%s", rep.Sig("C25"), what, rep.Frames, c25SrvTrim(rep.Relevant))
 	return false
 }
 
